@@ -23,7 +23,7 @@ META = dict(
               "the model's current inputs, cold deep copy) with a cache "
               "hit/miss shadow on Cached.method",
     rule=("case = (class, seeded model of its primary inputs, history of "
-          "public mutators of length 1..2 quick / 1..6 thorough, random "
+          "public mutators of length 1..3 quick / 1..6 thorough incl. A-B-A histories that return to an earlier setting after a different kind of change, random "
           "subset of the query surface discovered by reflection: every public "
           "method callable without required arguments x argument patterns "
           "(key / link_attribute = attribute name, typical_weight, order, "
@@ -65,7 +65,7 @@ def run(ctx):
     assert SC.PATCHED[0], "cache shadow not active"
     subs = S.all_subjects()
     assert [s.name for s in subs] == SUBJECT_NAMES
-    max_hist = 6 if ctx.thorough else 2
+    max_hist = 6 if ctx.thorough else 3
     nq = 24 if ctx.thorough else 14
     cap = 60000 if ctx.thorough else 6000
     qcache = {}
@@ -135,11 +135,21 @@ def one_case(ctx, sub, r, cid, max_hist, nq, call, agree, qcache, SC, S,
     muts = sub.mutators()
     hist = []
     L = int(r.integers(1, max_hist + 1))
+    applied = []          # (mutator index, seed of its private rng)
     for step in range(L):
-        mname, mfn = muts[int(r.integers(0, len(muts)))]
+        mi = int(r.integers(0, len(muts)))
+        mseed = int(r.integers(1 << 30))
+        if step >= 2 and r.random() < 0.5:
+            # A-B-A history: repeat an earlier mutator with the same private
+            # random stream, i.e. return to an earlier setting after a
+            # different kind of change
+            mi, mseed = applied[int(r.integers(0, len(applied) - 1))]
+            ctx.count("aba_steps")
+        mname, mfn = muts[mi]
+        applied.append((mi, mseed))
         try:
             with ctx.quiet():
-                m2 = mfn(obj, m, r)
+                m2 = mfn(obj, m, np.random.default_rng(mseed))
         except S.Skip:
             ctx.count("mutator_precondition_skips")
             continue
